@@ -13,7 +13,7 @@ from ..cfg import CFG, ENTRY, own_exprs, walk_own
 from ..core import PKG, Report
 from ..jinja_interp import expr_text
 from .siblings import Path as SimPath
-from .siblings import PathSim, error_locals, path_returns_error
+from .siblings import PathSim, _Inliner, _returns_in, error_locals, path_returns_error
 
 LEVEL = ("sibling / guard rules: (1) every get_type_string implementation evaluates an Unset-mentioning constant exactly when `not "
          "no_optional and not required` (path simulation over the boolean atoms, all overrides); to_string emits a default iff the "
@@ -465,12 +465,15 @@ def run(rep: Report, ctx: Any) -> str:
     hn = sch.methods.get("handle_nullable")
     rep.require(hn, "Schema.handle_nullable")
     # a nullable schema of each shape gets a null alternative on every path; a schema that is not nullable never does
+    # (the private helpers of the method written out in place, loops over a written-out table of fields unrolled: where the cases
+    # are told apart - one elif chain, phases in helpers, a loop over the composition keywords - is not what is asked)
+    hn_flat = _FlatInliner(ix, hn, depth=3).run()
     for field_ in ("type scalar", "type list", "oneOf", "anyOf", "allOf"):
-        paths = [p for p in _nullable_paths(hn.node, True, field_) if not isinstance(p.end, ast.Raise)]
+        paths = [p for p in _nullable_paths(hn_flat, True, field_) if not isinstance(p.end, ast.Raise)]
         rep.check(bool(paths) and all(_adds_null(p) for p in paths), "R10.4", f"Schema.handle_nullable::{field_}",
                   f"nullable is not normalised for schemas using {field_}", where(hn, hn.node),
                   lhs=[norm(p.end)[:60] if p.end is not None else "<end>" for p in paths if not _adds_null(p)][:2], rhs="a path that adds DataType.NULL")
-    paths = [p for f_ in ("type scalar", "oneOf") for p in _nullable_paths(hn.node, False, f_)]
+    paths = [p for f_ in ("type scalar", "oneOf") for p in _nullable_paths(hn_flat, False, f_)]
     rep.check(bool(paths) and not any(_adds_null(p) for p in paths), "R10.4", "Schema.handle_nullable::not-nullable",
               "a schema that is not nullable gets a null alternative", where(hn, hn.node))
     comp_fields = [f for f in ix.all_fields(sch) if f in ("allOf", "oneOf", "anyOf")]
@@ -727,35 +730,84 @@ def _nullable_paths(fn: ast.AST, nullable: bool, shape: str) -> list[SimPath]:
     the composition keywords non-empty"""
     from .siblings import _chain
 
-    def size(e: ast.expr) -> "int | None":
-        if isinstance(e, ast.Constant) and isinstance(e.value, int) and not isinstance(e.value, bool):
-            return e.value
-        if isinstance(e, ast.Call) and norm(e.func) == "len" and len(e.args) == 1 and norm(e.args[0]) in ("self.oneOf", "self.anyOf", "self.allOf"):
-            return 1 if norm(e.args[0]) == "self." + shape else 0
-        return None
+    def field_of(e: ast.expr, st: dict, sim: PathSim) -> str:
+        """`self.<field>` when the expression is that field of the schema: read directly, through a local that holds it, or by
+        `getattr(self, "<field>")` with the name written out or held by a local"""
+        e = sim.resolve(e, st)
+        if isinstance(e, ast.Call) and norm(e.func) == "getattr" and len(e.args) in (2, 3) and norm(e.args[0]) == "self":
+            k = sim.resolve(e.args[1], st)
+            if isinstance(k, ast.Constant) and isinstance(k.value, str):
+                return "self." + k.value
+        return norm(e)
 
     def leaf(e: ast.expr, st: dict, sim: PathSim) -> "bool | None":
-        t = norm(e)
+        def size(x: ast.expr) -> "int | None":
+            if isinstance(x, ast.Constant) and isinstance(x.value, int) and not isinstance(x.value, bool):
+                return x.value
+            if isinstance(x, ast.Call) and norm(x.func) == "len" and len(x.args) == 1 and \
+                    field_of(x.args[0], st, sim) in ("self.oneOf", "self.anyOf", "self.allOf"):
+                return 1 if field_of(x.args[0], st, sim) == "self." + shape else 0
+            return None
+
+        t = field_of(e, st, sim) if isinstance(e, (ast.Name, ast.Call)) else norm(e)
         if t == "self.nullable":
             return nullable
         if t in ("self.oneOf", "self.anyOf", "self.allOf"):
             return t == "self." + shape
         if t == "self.type":
             return shape.startswith("type")
-        if isinstance(e, ast.Call) and norm(e.func) == "isinstance" and len(e.args) == 2 and norm(e.args[0]) == "self.type":
+        if isinstance(e, ast.Call) and norm(e.func) == "isinstance" and len(e.args) == 2 and field_of(e.args[0], st, sim) == "self.type":
             kinds = [norm(x) for x in (e.args[1].elts if isinstance(e.args[1], ast.Tuple) else [e.args[1]])]
             have = {"type scalar": "str", "type list": "list"}.get(shape)
             return have in kinds if have else False
         if isinstance(e, ast.Compare):
-            if len(e.ops) == 1 and isinstance(e.ops[0], (ast.In, ast.NotIn)) and norm(e.comparators[0]) == "self.type" and norm(e.left).endswith("NULL"):
+            if len(e.ops) == 1 and isinstance(e.ops[0], (ast.In, ast.NotIn)) and field_of(e.comparators[0], st, sim) == "self.type" and norm(e.left).endswith("NULL"):
                 return isinstance(e.ops[0], ast.NotIn)  # the list does not contain null yet
             return _chain(e, size)
         return None
 
     def none_of(e: ast.expr, st: dict, sim: PathSim) -> "bool | None":
-        return (not shape.startswith("type")) if norm(e) == "self.type" else None
+        return (not shape.startswith("type")) if field_of(e, st, sim) == "self.type" else None
 
     return PathSim(fn, leaf, none_of).paths()
+
+
+class _FlatInliner(_Inliner):
+    """_Inliner, also for helpers that are called where the inliner leaves them alone although writing them out is exact:
+
+    * a helper call in a later operand of the `and` / `or` an `if` tests: `if a and h(): B else: E` is `if a: (if h(): B else: E)
+      else: E` (and `if a or h(): B else: E` is `if a: B else: (if h(): B else: E)`), where the call is evaluated
+      unconditionally in the test of the inner `if`;
+    * a helper that returns from inside a loop over a written-out table: the loop is unrolled first, the returns are then
+      returns of straight-line code."""
+
+    def _calls_helper(self, e: ast.AST) -> bool:
+        return any(isinstance(n, ast.Call) and self._helper_of(n) is not None for n in ast.walk(e))
+
+    def _hoist(self, s: ast.stmt, stack: tuple) -> list:
+        import copy
+
+        if isinstance(s, ast.If) and isinstance(s.test, ast.BoolOp):
+            vals = s.test.values
+            k = next((i for i in range(1, len(vals)) if self._calls_helper(vals[i])), None)
+            if k is not None:
+                first = vals[0] if k == 1 else ast.copy_location(ast.BoolOp(op=s.test.op, values=vals[:k]), s.test)
+                rest = vals[k] if k == len(vals) - 1 else ast.copy_location(ast.BoolOp(op=s.test.op, values=vals[k:]), s.test)
+                if isinstance(s.test.op, ast.And):
+                    inner = ast.copy_location(ast.If(test=rest, body=s.body, orelse=copy.deepcopy(s.orelse)), s)
+                    s.test, s.body = first, [inner]
+                else:
+                    inner = ast.copy_location(ast.If(test=rest, body=copy.deepcopy(s.body), orelse=s.orelse), s)
+                    s.test, s.orelse = first, [inner]
+                self.n += 1
+        return super()._hoist(s, stack)
+
+    def _structured(self, stmts: list, res: str, budget: list) -> "list | None":
+        flat: list = []
+        for s in stmts:
+            u = self._unrolled(s) if isinstance(s, ast.For) and _returns_in(s) else None
+            flat += u if u is not None else [s]
+        return super()._structured(flat, res, budget)
 
 
 def _adds_null(p: SimPath) -> bool:
